@@ -126,6 +126,11 @@ def _shape(node, locals_, attrs=frozenset(), attr_hits=None):
             # not (a in b) is shaped like a not in b
             c = n.operand
             return rec(ast.Compare(left=c.left, ops=[_NEG_SHAPE[type(c.ops[0])]()], comparators=c.comparators))
+        if isinstance(n, ast.IfExp):
+            # polarity-free: `a if not c else b` is shaped like `b if c else a`
+            t_ = _unnegated(n.test)
+            if t_ is not n.test:
+                return rec(ast.IfExp(test=t_, body=n.orelse, orelse=n.body))
         if isinstance(n, ast.Compare) and len(n.ops) == 1 and type(n.ops[0]) in _MIRROR_SHAPE:
             # orientation-free shape of a comparison: (a > b) is shaped like (b < a); for == / != the two sides are ordered by
             # their own shapes, and when these are equal the names on both sides do not vote (their order is arbitrary)
@@ -457,6 +462,25 @@ def respell_aligned(f_new, f_ref):
                         st.test, st.body = neg, rest
                         lst[i + 1:] = tmp.orelse
                         n_[0] += 1
+                    elif isinstance(owner, (ast.For, ast.While)) and field == "body" and lst[i] is st and not r.orelse \
+                            and not any(isinstance(x, FUNC + (ast.ClassDef,)) for x in lst[i + 1:]):
+                        # the end of a loop body is a `continue`:
+                        #    if T: continue   REST        <->      if not-T: REST            (last statement of the loop body)
+                        only_continue = len(st.body) == 1 and isinstance(st.body[0], ast.Continue)
+                        r_only_continue = len(r.body) == 1 and isinstance(r.body[0], ast.Continue)
+                        if only_continue and not r_only_continue and i + 1 < len(lst):
+                            st.test, st.body = neg, lst[i + 1:]
+                            del lst[i + 1:]
+                            n_[0] += 1
+                        elif r_only_continue and not only_continue and i + 1 == len(lst):
+                            cont = ast.copy_location(ast.Continue(), st)
+                            body = st.body
+                            st.test, st.body = neg, [cont]
+                            lst.extend(body)
+                            n_[0] += 1
+        if isinstance(owner, (ast.For, ast.While)) and field == "body" and len(lst) > 1 and isinstance(lst[-1], ast.Continue) and id(lst[-1]) not in pairs:
+            del lst[-1]         # a `continue` that ends the loop body says nothing
+            n_[0] += 1
         for st in lst:
             if isinstance(st, FUNC + (ast.ClassDef,)):
                 continue
@@ -468,6 +492,58 @@ def respell_aligned(f_new, f_ref):
                 for h in st.handlers:
                     block(h, "body")
     block(f_new, "body")
+    if n_[0]:
+        ast.fix_missing_locations(f_new)
+    return n_[0]
+
+
+def inline_named_tests(f_new, f_ref):
+    """-> number of named tests put back into the `if` they serve (runs before the names are aligned: a fresh name must not be
+    taken for a variable of the reference function first)"""
+    n_ = [0]
+    # a named test that the reference function does not have:   t = <test>; if t: ..   ->   if <test>: ..   (t assigned once,
+    # read once - in the test of the `if` that follows at once; inside a larger test only an expression without calls moves)
+    ref_stored0 = {x.id for x in ast.walk(f_ref) if isinstance(x, ast.Name) and isinstance(x.ctx, ast.Store)}
+    uses = {}
+    for x in _own_nodes(f_new):
+        if isinstance(x, ast.Name):
+            uses.setdefault(x.id, [0, 0])[0 if isinstance(x.ctx, ast.Store) else 1] += 1
+    nested_names = {x.id for o_ in ast.walk(f_new) if o_ is not f_new and isinstance(o_, FUNC + (ast.Lambda, ast.ClassDef)) for x in ast.walk(o_) if isinstance(x, ast.Name)}
+
+    def _callfree(e):
+        return not any(isinstance(x, (ast.Call, ast.NamedExpr, ast.Await, ast.Yield, ast.YieldFrom, ast.Lambda, ast.ListComp, ast.SetComp, ast.DictComp, ast.GeneratorExp))
+                       and not (isinstance(x, ast.Call) and isinstance(x.func, ast.Name) and x.func.id in ("len", "isinstance", "hasattr")) for x in ast.walk(e))
+
+    def inline_tests(owner, field):
+        lst = getattr(owner, field)
+        i = 0
+        while i + 1 < len(lst):
+            a, b = lst[i], lst[i + 1]
+            if isinstance(a, ast.Assign) and len(a.targets) == 1 and isinstance(a.targets[0], ast.Name) and isinstance(b, ast.If):
+                t = a.targets[0].id
+                if t not in ref_stored0 and uses.get(t) == [1, 1] and t not in nested_names:
+                    hits = [x for x in ast.walk(b.test) if isinstance(x, ast.Name) and x.id == t]
+                    whole = isinstance(b.test, ast.Name) or (isinstance(b.test, ast.UnaryOp) and isinstance(b.test.op, ast.Not) and isinstance(b.test.operand, ast.Name))
+                    if len(hits) == 1 and (whole or _callfree(a.value)):
+                        class _Sub(ast.NodeTransformer):
+                            def visit_Name(self, n):
+                                return a.value if n is hits[0] else n
+                        b.test = _Sub().visit(b.test)
+                        del lst[i]
+                        n_[0] += 1
+                        continue
+            i += 1
+        for st in lst:
+            if isinstance(st, FUNC + (ast.ClassDef,)):
+                continue
+            for fld in ("body", "orelse", "finalbody"):
+                v = getattr(st, fld, None)
+                if isinstance(v, list) and v and isinstance(v[0], ast.stmt):
+                    inline_tests(st, fld)
+            if isinstance(st, ast.Try):
+                for h in st.handlers:
+                    inline_tests(h, "body")
+    inline_tests(f_new, "body")
     if n_[0]:
         ast.fix_missing_locations(f_new)
     return n_[0]
@@ -509,6 +585,7 @@ def respell(f_new, f_ref):
         in the reference function - in a nested helper, say - does not count)"""
         r = pairs0.get(id(n))
         return isinstance(r, ast.If) and _norm(r.test) == _norm(n.test)
+
 
     class T(ast.NodeTransformer):
         def visit_UnaryOp(self, n):
@@ -1040,6 +1117,22 @@ def package_plan(root):
                         for u, v in zip(xa, xb):
                             votes.setdefault(u.attr, {}).setdefault(v.attr, 0)
                             votes[u.attr][v.attr] += 1
+    # class-level private constants that changed their name but not their value
+    for rel in new:
+        if rel not in ref:
+            continue
+        nd, rd = _index(new[rel]), _index(ref[rel])
+        for q, c in nd.items():
+            if not isinstance(c, ast.ClassDef) or not isinstance(rd.get(q), ast.ClassDef):
+                continue
+            ca = {st.targets[0].id: st.value for st in c.body if isinstance(st, ast.Assign) and len(st.targets) == 1 and isinstance(st.targets[0], ast.Name)}
+            cb = {st.targets[0].id: st.value for st in rd[q].body if isinstance(st, ast.Assign) and len(st.targets) == 1 and isinstance(st.targets[0], ast.Name)}
+            for k, v in ca.items():
+                if k in cand_new and k not in cb:
+                    same = [kr for kr, vr in cb.items() if kr in cand_ref and kr not in ca and ast.dump(vr) == ast.dump(v)]
+                    if len(same) == 1:
+                        votes.setdefault(k, {}).setdefault(same[0], 0)
+                        votes[k][same[0]] += 1000
     taken = set()
     for a, d in sorted(votes.items(), key=lambda kv: -max(kv[1].values())):
         best = max(d.items(), key=lambda kv: kv[1])
@@ -1185,7 +1278,10 @@ def normalise_function(f, fr, free_new=frozenset(), free_ref=frozenset(), rep=No
     rep = rep if rep is not None else {"renamed_functions": 0, "names": 0, "same_shape": 0, "aligned": 0, "details": {}}
     q = q or f.name
     renamed = False
-    tot_m = tot_k = 0
+    tot_m = 0
+    tot_k = inline_named_tests(f, fr)
+    if tot_k:
+        rep["respelled"] = rep.get("respelled", 0) + tot_k
     for _round in range(3):
         mapping, how, locals_, others = correspondence(f, fr, free_new, free_ref)
         m = _valid(mapping, locals_, others)
@@ -1244,7 +1340,7 @@ def normalise_module(tree, rel, root=None):
         if isinstance(f, FUNC) and (q not in ref_defs or not isinstance(ref_defs[q], FUNC)):
             # a function the reference does not have: only the reference-independent canonical spellings (`not (a in b)` ->
             # `a not in b`, accumulation loop of a private loop variable -> comprehension)
-            k = 0
+            k = inline_named_tests(f, _EMPTY_FUNC)
             for _inner in range(4):
                 k1 = respell(f, _EMPTY_FUNC)
                 k += k1
